@@ -5,6 +5,7 @@ import Driver.Dec
 import Driver.Parse
 import Driver.Load
 import Driver.Build
+import Driver.Reflect
 /-!
 Line-protocol driver: evaluates the Lean model's executable definitions on requests read from stdin,
 one response per line. Built as a `lean_exe` (imports nothing outside core/Std).
@@ -34,6 +35,9 @@ def respond (line : String) : String :=
   | some r => r
   | none =>
   match respondBuildRt ws with
+  | some r => r
+  | none =>
+  match respondReflect ws with
   | some r => r
   | none => "bad-request"
 
